@@ -269,7 +269,7 @@ func ewExec(r *core.Run, c ewCase) (*core.Fail, string) {
 	av, bv, sv := ewVals(d, n, c.vs)
 	same := strings.HasPrefix(c.mode, "same+")
 	mode := strings.TrimPrefix(c.mode, "same+")
-	incr := strings.HasPrefix(mode, "incr:")
+	incr := strings.HasPrefix(mode, "incr:") || strings.HasPrefix(mode, "incr=")
 	var A, B, D *atlas.Built
 	var err error
 	build := func(vals []interface{}, lay string, dt ref.DT) (*atlas.Built, error) {
@@ -360,6 +360,17 @@ func ewExec(r *core.Run, c ewCase) (*core.Fail, string) {
 		dest = tensorOperand
 	case (mode == "reuse=a" && A == nil) || (mode == "reuse=b" && B == nil):
 		return nil, "skip:reuse-operand-absent"
+	case (mode == "incr=a" && A == nil) || (mode == "incr=b" && B == nil):
+		return nil, "skip:incr-operand-absent"
+	case mode == "incr=a":
+		// the increment tensor is an operand: it ends up holding its old elements plus the result computed from them
+		dest = A
+		destOld = append([]interface{}{}, av...)
+		opts = append(opts, tensor.WithIncr(A.T))
+	case mode == "incr=b":
+		dest = B
+		destOld = append([]interface{}{}, bv...)
+		opts = append(opts, tensor.WithIncr(B.T))
 	case mode == "reuse=a":
 		dest = A
 		opts = append(opts, tensor.WithReuse(A.T))
@@ -650,7 +661,7 @@ func ewExec(r *core.Run, c ewCase) (*core.Fail, string) {
 	if len(got) != n {
 		return core.F("wrong-shape", "n", "result has %d elements, expected %d", len(got), n), o.Class
 	}
-	kfDivZero, kfReuseB, kfMinMaxIncr, kfCmpLen1 := false, false, false, false
+	kfDivZero, kfReuseB, kfMinMaxIncr, kfCmpLen1, kfIncrLen1 := false, false, false, false, false
 	defer func() { _ = kfDivZero }()
 	for i := 0; i < n; i++ {
 		w := want[i]
@@ -703,6 +714,15 @@ func ewExec(r *core.Run, c ewCase) (*core.Fail, string) {
 			kfMinMaxIncr = true // DEFECT model of F-C07-minmax-incr-overwrites: the increment tensor is overwritten with the result
 			continue
 		}
+		if !okv && incr && n == 1 && (mode == "incr=a" || mode == "incr=b") {
+			// consequence of F-C07-incr-len1-mutates-a: for one-element operands the first tensor operand is overwritten
+			// with op(a,b) before that is added into the increment tensor - when the increment tensor is that operand
+			// (or the same tensor as it) the result is added to itself
+			if rr := ref.Arith("Add", plain, plain); !rr.Refuse && !rr.Skip && (ref.Same(got[i], rr.V) || ref.Close(got[i], rr.V)) {
+				kfIncrLen1 = true
+				continue
+			}
+		}
 		if !okv && c.kind == "cmp" && mode == "unsafe" && (c.form == "ST" || c.form == "StT") && n == 1 && ref.Same(got[i], bv[i]) {
 			kfCmpLen1 = true // DEFECT model of F-C11-cmp-unsafe-scalar-left-len1: the tensor is left unchanged
 			continue
@@ -733,6 +753,9 @@ func ewExec(r *core.Run, c ewCase) (*core.Fail, string) {
 	}
 	if kfCmpLen1 {
 		return core.F("wrong-value[KF:cmp-unsafe-scalar-left-len1]", "c1", "in-place comparison scalar OP one-element tensor leaves the tensor unchanged (the result is written into the scalar's temporary). got %s", ref.FmtEls(got)), o.Class
+	}
+	if kfIncrLen1 {
+		return core.F("wrong-value[KF:incr-len1-mutates-a]", "il", "%s of one-element operands with an operand as increment tensor: the operand is overwritten with the result before the result is added into it. got %s", c.op, ref.FmtEls(got)), o.Class
 	}
 	if kfMinMaxIncr {
 		return core.F("wrong-value[KF:minmax-incr-overwrites]", "mi", "%s with an increment tensor overwrites it with the result instead of adding to it. got %s", c.op, ref.FmtEls(got)), o.Class
